@@ -253,6 +253,20 @@ func (r *Run) run(ctx context.Context) {
 	poolManager := workers.New(r.options.MaxIterations, r.activeScenario)
 	r.trigger.Trigger(triggerCtx, r.output, poolManager, r.options)
 
+	// triggering stopped because max iterations was reached: wait for the active iterations, but
+	// like for the other ways of stopping, only for as long as the completion timeout
+	if poolManager.MaxIterationsReached() && ctx.Err() == nil && triggerCtx.Err() == nil {
+		r.output.Display(r.result.MaxIterationsReached())
+		select {
+		case <-poolManager.WaitForCompletion():
+		case <-time.After(r.waitForCompletionTimeout):
+			r.output.Display(ui.WarningMessage{
+				Message: fmt.Sprintf("Active tests not completed after %s. Stopping...", r.waitForCompletionTimeout.String()),
+			})
+		}
+		return
+	}
+
 	select {
 	case <-ctx.Done():
 		r.output.Display(r.result.Interrupted())
